@@ -8,9 +8,9 @@ MIG_FORMULAS = dict(
     invariants=["C14_RecordsAgree", "C14_NoLeftover", "C14_IndexesConsistent", "C14_QueuesMatch", "C14_InvariantsHold",
                 "C14_TotalsMatch", "C14_SourceEmpty"],
     properties=["C14_MovesEverything", "C14_Once", "C14_NeedsTargetSignature", "C14_NoOperatorNoStakedTarget",
-                "C14_RefusedWhileInOpenProposal", "C14_TargetActsAsSource"],
+                "C14_RefusedWhileInOpenProposal", "C14_TargetActsAsSource", "C14_MaturedFundsArrive"],
     p_properties=["P_C14_MovesEverything", "P_C14_Once", "P_C14_NeedsTargetSignature", "P_C14_NoOperatorNoStakedTarget",
-                  "P_C14_RefusedWhileInOpenProposal", "P_C14_TargetActsAsSource"],
+                  "P_C14_RefusedWhileInOpenProposal", "P_C14_TargetActsAsSource", "P_C14_MaturedFundsArrive"],
 )
 
 SRC, TGT, VAL = ["s1", "s2"], ["t1", "t2"], ["v1", "v2"]
@@ -19,16 +19,17 @@ COINS = {"CoinsStd": {"s1": 4, "s2": 2, "t1": 0, "t2": 2}, "CoinsGov": {"s1": 2,
 
 def consts(*, delegate=(), undelegate=(), redelegate=(), withdraw=(), gov=(), opval=("v1", "v2"),
            mig_from=("s1", "s2", "t1", "o1"), mig_to=("t1", "t2", "tv"),
-           stake=0, ticks=0, passes=1, props=0, govops=0, entries=2, mindep=2):
+           stake=0, ticks=0, passes=1, props=0, govops=0, entries=2, mindep=2, blockops=False, begins=0):
     return dict(Src=SRC, Tgt=TGT, Val=VAL, OpFrom="o1", OpTo="tv",
                 DelegateBy=list(delegate), UndelegateBy=list(undelegate), RedelegateBy=list(redelegate),
                 WithdrawBy=list(withdraw), GovBy=list(gov), OpVal=list(opval), MigFrom=list(mig_from), MigTo=list(mig_to),
-                DelAmt=2, UndAmt=1, RedAmt=1, MinDeposit=mindep,
+                DelAmt=2, UndAmt=1, RedAmt=1, MinDeposit=mindep, UnbondH=504, DepositH=48, VotingH=96, BlockOps=blockops, MaxBegin=begins,
                 MaxStake=stake, MaxTicks=ticks, MaxPasses=passes, MaxProps=props, MaxGov=govops, MaxEntries=entries)
 
 
 def harness(tag, coins, mindep=2):
-    return dict(chain=tag, Src=SRC, Tgt=TGT, Val=VAL, OpFrom="o1", OpTo="tv", InitCoins=COINS[coins], MinDeposit=mindep)
+    return dict(chain=tag, Src=SRC, Tgt=TGT, Val=VAL, OpFrom="o1", OpTo="tv", InitCoins=COINS[coins], MinDeposit=mindep,
+                UnbondH=504, DepositH=48, VotingH=96)
 
 
 # Scenario families (who attempts what; every family contains all Migrate variants: wrong signer, used addresses,
@@ -47,12 +48,21 @@ GOV3 = dict(gov=("s1", "s2", "t2"), mig_from=("s1", "s2", "t2", "o1"))
 # MIXED: staking portfolio and governance involvement together
 MIXED = dict(delegate=("s1",), undelegate=("s1", "t1"), withdraw=("t1",), opval=("v1",), gov=("s1", "t2"))
 
+# MATURE: a block whose time has reached (exactly / strictly passed) the completion time of pending entries, with
+# transactions (Migrate, further staking operations) BEFORE that block's end blocker pays out; two delegators share slices
+MATURE = dict(delegate=("s1", "s2"), undelegate=("s1", "s2"), redelegate=("s1",), opval=("v1",), mig_from=("s1",), mig_to=("t1",),
+              blockops=True, begins=1, passes=0)
+MATURE_ALL = dict(delegate=("s1", "s2"), undelegate=("s1", "s2", "t1"), redelegate=("s1",), opval=("v1",), mig_from=("s1", "s2"),
+                  mig_to=("t1", "t2"), blockops=True, begins=1, passes=0)
+
 STD, GOVC = {"InitCoins": "CoinsStd"}, {"InitCoins": "CoinsGov"}
 Q, T, D = ["quick"], ["thorough"], ["dev"]
 
 MIG_MC = [
     dict(name="mcAll3", tiers=D + Q + T, consts=consts(**ALL, stake=3, ticks=1), overrides=STD),
     dict(name="mcGov2", tiers=D + Q + T, consts=consts(**GOV2, props=2, govops=4), overrides=GOVC),
+    dict(name="mcMature", tiers=D + Q + T, consts=consts(**MATURE, stake=4, ticks=1), overrides=STD),
+    dict(name="mcMatureAll", tiers=T, consts=consts(**MATURE_ALL, stake=4, ticks=1), overrides=STD),
     dict(name="mcMixed", tiers=T, consts=consts(**MIXED, stake=2, ticks=1, props=1, govops=3), overrides=STD),
     dict(name="mcAll4", tiers=T, consts=consts(**ALL, stake=4, ticks=1), overrides=STD, timeout=1200),
     dict(name="mcOne6", tiers=T, consts=consts(**ONE, stake=6, ticks=2), overrides=STD, timeout=1200),
@@ -71,17 +81,20 @@ def gen(name, tiers, c, ov, coins, **kw):
 MIG_GEN = [
     gen("devOne", D, consts(**ONE, stake=2, ticks=1), STD, "CoinsStd", shards=8, rej_sample=4, explore=2),
     gen("devStaked", D, consts(**STAKED, stake=2), STD, "CoinsStd", shards=4, rej_sample=4, explore=2),
+    gen("devMature", D, consts(**MATURE, stake=3, ticks=1), STD, "CoinsStd", shards=8, rej_sample=4, explore=2),
     gen("devGov", D, consts(**GOV2, props=1, govops=3), GOVC, "CoinsGov", shards=8, rej_sample=4, explore=2),
     # quick: rejected operations sampled per state
     gen("qOne", Q, consts(**ONE, stake=4, ticks=1), STD, "CoinsStd", shards=14, rej_sample=6, explore=2),
     gen("qShared", Q, consts(**SHARED, stake=4, ticks=1), STD, "CoinsStd", shards=14, rej_sample=6, explore=2),
     gen("qStaked", Q, consts(**STAKED, stake=3), STD, "CoinsStd", shards=8, rej_sample=6, explore=2),
+    gen("qMature", Q, consts(**MATURE, stake=4, ticks=1), STD, "CoinsStd", shards=14, rej_sample=6, explore=2),
     gen("qGov", Q, consts(**GOV2, props=2, govops=4), GOVC, "CoinsGov", shards=14, rej_sample=6, explore=2),
     # thorough: every operation of the alphabet in every expanded state
     gen("tOne", T, consts(**ONE, stake=5, ticks=1), STD, "CoinsStd", shards=16, rej_sample=0, explore=3),
     gen("tShared", T, consts(**SHARED, stake=6, ticks=1), STD, "CoinsStd", shards=16, rej_sample=0, explore=3),
     gen("tAll", T, consts(**ALL, stake=3, ticks=1), STD, "CoinsStd", shards=16, rej_sample=0, explore=3),
     gen("tStaked", T, consts(**STAKED, stake=4), STD, "CoinsStd", shards=8, rej_sample=0, explore=3),
+    gen("tMature", T, consts(**MATURE_ALL, stake=4, ticks=1), STD, "CoinsStd", shards=16, rej_sample=0, explore=3),
     gen("tGov", T, consts(**GOV3, props=2, govops=5), GOVC, "CoinsGov", shards=16, rej_sample=0, explore=3),
     gen("tMixed", T, consts(**MIXED, stake=2, ticks=1, props=1, govops=4), STD, "CoinsStd", shards=16, rej_sample=0, explore=3),
 ]
@@ -98,6 +111,9 @@ ASSUMPTIONS = [
     "RewardTick = one block, +1h: fees in a second denomination are minted to the fee collector and distribution's real BeginBlocker "
     "allocates them with vote infos naming the genesis validators; reward amounts are abstracted to 'pending / not pending' and 'holds "
     "the reward denomination'; no slashing, so shares = tokens",
+    "BeginBlockExact / BeginBlockLater derive the next block's context on the branch (time = exactly / strictly after the completion "
+    "time of the oldest pending entry) without any begin or end blocker; EndBlock = the application's real EndBlocker at the current time; "
+    "messages in between run in that block as transactions would, before its end blocker",
     "TimePasses = one block beyond unbonding (and deposit / voting) period on the branch with the application's real EndBlocker; "
     "header info and block header of derived contexts are set consistently as baseapp does",
     "abstraction function: raw prefix scans of the staking store (0x31 0x32 0x33 0x34 0x35 0x36 0x38 0x41 0x42 0x71), distribution 0x04, "
